@@ -195,6 +195,18 @@ func genAlloc(r *vh.Rng, mult int, emit func(op, impl, class string, nontrivial 
 			}
 		}
 	}
+	// counts that a guard weakened by a constant factor would still let through: 512 .. 20000 elements announced
+	// over 32..64 bytes of value
+	for _, s := range shapes {
+		for _, n := range []uint32{512, 4096, 20000} {
+			proto := 3 + r.Intn(2)
+			var pre []byte
+			if h := s[0][:3]; h == "tup" || h == "udt" {
+				pre = []byte{0, 0, 0, 60}
+			}
+			run(proto, s[0], s[1], append(append(append([]byte{}, pre...), cnt(proto, n)...), r.Bytes(32+r.Intn(33))...), "count>>value")
+		}
+	}
 	// random collection values behind a big count
 	reps := 40 * mult
 	if n, _ := strconv.Atoi(os.Getenv("VERIF_C05_ALLOC_MULT")); n > 0 {
